@@ -503,25 +503,30 @@ def get_model_parser(top_rule, comments_model, **kwargs):
                     except KeyError:
                         pass
 
+                # The object is not (or no longer) under construction: use
+                # the user's own method if the class has one.
+                real = user_class.__dict__.get("_tx_real_getattribute")
+                if real is not None:
+                    return real(obj, name)
                 return super(user_class, obj).__getattribute__(name)
 
             def _setattr(obj, name, value):
                 try:
                     user_class._tx_obj_attrs[id(obj)][name] = value
                 except KeyError:
-                    try:
-                        return user_class._tx_real_setattr(name, value)
-                    except (AttributeError, TypeError):
-                        return super(user_class, obj).__setattr__(name, value)
+                    real = user_class.__dict__.get("_tx_real_setattr")
+                    if real is not None:
+                        return real(obj, name, value)
+                    return super(user_class, obj).__setattr__(name, value)
 
             def _delattr(obj, name):
                 try:
                     user_class._tx_obj_attrs[id(obj)].pop(name)
                 except KeyError:
-                    try:
-                        return user_class._tx_real_delattr(name)
-                    except (AttributeError, TypeError):
-                        return super(user_class, obj).__delattr__(name)
+                    real = user_class.__dict__.get("_tx_real_delattr")
+                    if real is not None:
+                        return real(obj, name)
+                    return super(user_class, obj).__delattr__(name)
 
             for a_name in ("setattr", "delattr", "getattribute"):
                 real_name = f"__{a_name}__"
